@@ -51,6 +51,7 @@ theorem keep_applyRemoteOffer (n : Nat) (secs : List Sec) (used : List Nat) (pc 
 inductive Eff (pc pc' : PC) : Prop
   | keep : pc'.isNN = pc.isNN → pc'.events = pc.events → pc'.fired = pc.fired → Eff pc pc'
   | stable : pc'.isNN = false → pc'.events = pc.events ++ [.stable] → pc'.fired = pc.fired → Eff pc pc'
+  | rolledBack : pc'.isNN = false → pc'.events = pc.events ++ [.rolledBack] → pc'.fired = pc.fired → Eff pc pc'
   | withdrawn : pc.isNN = true → pc'.isNN = false → pc'.events = pc.events ++ [.withdrawn] →
       pc'.fired = pc.fired → Eff pc pc'
   | fire : pc.isNN = false → pc'.isNN = true → pc'.events = pc.events ++ [.fire] →
@@ -68,31 +69,30 @@ theorem sameCtl_commitDesc (pc : PC) (isLocal : Bool) (ty : Ty) (d : Desc) :
   unfold commitDesc
   split <;> exact ⟨⟨rfl, rfl, rfl, rfl, rfl⟩, rfl, rfl⟩
 
-/-- only a (final) answer leads to stable -/
+/-- only a (final) answer or a rollback leads to stable -/
 theorem checkNext_stable {cur : Sig} {isLocal : Bool} {ty : Ty} (h : checkNext cur isLocal ty = some .stable) :
-    ty = .answer := by
-  cases cur <;> cases isLocal <;> cases ty <;> simp [checkNext] at h <;> rfl
+    ty = .answer ∨ ty = .rollback := by
+  cases cur <;> cases isLocal <;> cases ty <;> simp [checkNext] at h <;> simp
 
-/-- `setDescription` either keeps the bookkeeping (next state not stable) or records a completed exchange -/
-theorem setDescription_cases {pc pc1 : PC} {isLocal : Bool} {d : Desc} {prov : Bool}
-    (h : setDescription pc isLocal d prov = some pc1) :
+theorem descTy_ne_rollback (d : Desc) (prov : Bool) : descTy d prov ≠ .rollback := by
+  unfold descTy; split
+  · simp
+  · split <;> simp
+
+/-- the end of `setDescription` either keeps the bookkeeping (next state not stable) or clears the flag, logs
+    the completed exchange / the rollback and queues the check -/
+theorem applyChecked_cases {pc pc1 : PC} {isLocal : Bool} {ty : Ty} {d : Desc}
+    (h : applyChecked pc isLocal ty d = some pc1) :
     (pc1.isNN = pc.isNN ∧ pc1.events = pc.events ∧ pc1.fired = pc.fired ∧ pc1.closed = pc.closed ∧
-        pc1.queue = pc.queue ∧ pc1.updFlag = pc.updFlag ∧ pc1.sig ≠ .stable ∧ pc.closed = false)
-    ∨ (pc1.sig = .stable ∧ pc1.isNN = false ∧ pc1.events = pc.events ++ [.stable] ∧ pc1.fired = pc.fired
-        ∧ pc1.closed = false ∧ (pc1.updFlag = true ∨ QOp.nn ∈ pc1.queue) ∧ descTy d prov = .answer) := by
-  unfold setDescription at h
-  by_cases hcl : pc.closed = true
-  · simp [hcl] at h
-  have hcl' : pc.closed = false := by simpa using hcl
-  rw [if_neg hcl] at h
-  split at h
-  · simp at h
-  split at h
-  · simp at h
+        pc1.queue = pc.queue ∧ pc1.updFlag = pc.updFlag ∧ pc1.sig ≠ .stable)
+    ∨ (pc1.sig = .stable ∧ pc1.isNN = false ∧
+        pc1.events = pc.events ++ [if ty == .rollback then .rolledBack else .stable] ∧ pc1.fired = pc.fired
+        ∧ pc1.closed = pc.closed ∧ (pc1.updFlag = true ∨ QOp.nn ∈ pc1.queue) ∧ (ty = .answer ∨ ty = .rollback)) := by
+  unfold applyChecked at h
   split at h
   · simp at h
   rename_i next hnext
-  have hc := sameCtl_commitDesc pc isLocal (descTy d prov) d
+  have hc := sameCtl_commitDesc pc isLocal ty d
   simp only at h
   split at h
   · rename_i hst
@@ -101,21 +101,50 @@ theorem setDescription_cases {pc pc1 : PC} {isLocal : Bool} {d : Desc} {prov : B
     subst h
     right
     refine ⟨hst', rfl, ?_, ?_, ?_, ?_, ?_⟩
-    · show (commitDesc pc isLocal (descTy d prov) d).events ++ [Ev.stable] = _
+    · show (commitDesc pc isLocal ty d).events ++ _ = _
       rw [hc.events]
     · exact hc.fired
-    · show (commitDesc pc isLocal (descTy d prov) d).closed = false
-      rw [hc.closed, hcl']
+    · exact hc.closed
     · show (onNN _).updFlag = true ∨ QOp.nn ∈ (onNN _).queue
       simp only [onNN]
-      by_cases hq : (commitDesc pc isLocal (descTy d prov) d).queue.isEmpty = true <;> simp [hq]
+      by_cases hq : (commitDesc pc isLocal ty d).queue.isEmpty = true <;> simp [hq]
     · rw [hst'] at hnext
       exact checkNext_stable hnext
   · rename_i hst
     injection h with h
     subst h
     left
-    exact ⟨hc.isNN, hc.events, hc.fired, hc.closed, hc.queue, hc.updFlag, by simpa using hst, hcl'⟩
+    exact ⟨hc.isNN, hc.events, hc.fired, hc.closed, hc.queue, hc.updFlag, by simpa using hst⟩
+
+theorem setDescription_applyChecked {pc pc1 : PC} {isLocal : Bool} {d : Desc} {prov : Bool}
+    (h : setDescription pc isLocal d prov = some pc1) :
+    applyChecked pc isLocal (descTy d prov) d = some pc1 ∧ pc.closed = false := by
+  unfold setDescription at h
+  by_cases hcl : pc.closed = true
+  · simp [hcl] at h
+  rw [if_neg hcl] at h
+  split at h
+  · simp at h
+  split at h
+  · simp at h
+  exact ⟨h, by simpa using hcl⟩
+
+/-- `setDescription` either keeps the bookkeeping (next state not stable) or records a completed exchange -/
+theorem setDescription_cases {pc pc1 : PC} {isLocal : Bool} {d : Desc} {prov : Bool}
+    (h : setDescription pc isLocal d prov = some pc1) :
+    (pc1.isNN = pc.isNN ∧ pc1.events = pc.events ∧ pc1.fired = pc.fired ∧ pc1.closed = pc.closed ∧
+        pc1.queue = pc.queue ∧ pc1.updFlag = pc.updFlag ∧ pc1.sig ≠ .stable ∧ pc.closed = false)
+    ∨ (pc1.sig = .stable ∧ pc1.isNN = false ∧ pc1.events = pc.events ++ [.stable] ∧ pc1.fired = pc.fired
+        ∧ pc1.closed = false ∧ (pc1.updFlag = true ∨ QOp.nn ∈ pc1.queue) ∧ descTy d prov = .answer) := by
+  obtain ⟨ha, hcl⟩ := setDescription_applyChecked h
+  rcases applyChecked_cases ha with ⟨h1, h2, h3, h4, h5, h6, h7⟩ | ⟨h1, h2, h3, h4, h5, h6, h7⟩
+  · exact Or.inl ⟨h1, h2, h3, h4, h5, h6, h7, hcl⟩
+  · have hty : descTy d prov = .answer := by
+      rcases h7 with h7 | h7
+      · exact h7
+      · exact absurd h7 (descTy_ne_rollback d prov)
+    refine Or.inr ⟨h1, h2, ?_, h4, by rw [h5, hcl], h6, hty⟩
+    rw [h3, hty]; rfl
 
 theorem eff_of_setDescription {pc pc1 : PC} {isLocal : Bool} {d : Desc} {prov : Bool}
     (h : setDescription pc isLocal d prov = some pc1) : Eff pc pc1 := by
@@ -127,6 +156,7 @@ theorem eff_trans_keep {a b c : PC} (h1 : Eff a b) (h2 : Keep b c) : Eff a c := 
   cases h1 with
   | keep x y z => exact .keep (h2.isNN.trans x) (h2.events.trans y) (h2.fired.trans z)
   | stable x y z => exact .stable (h2.isNN.trans x) (h2.events.trans y) (h2.fired.trans z)
+  | rolledBack x y z => exact .rolledBack (h2.isNN.trans x) (h2.events.trans y) (h2.fired.trans z)
   | withdrawn w x y z => exact .withdrawn w (h2.isNN.trans x) (h2.events.trans y) (h2.fired.trans z)
   | fire w x y z => exact .fire w (h2.isNN.trans x) (h2.events.trans y) (h2.fired.trans z)
 
@@ -198,8 +228,20 @@ theorem eff_setRemote (pc : PC) (d : Desc) (prov : Bool) : Eff pc (setRemote pc 
         split
         · split
           · exact eff_trans_keep this (keep_applyRemoteOffer _ _ _ _)
-          · exact eff_trans_keep this (Keep.trans (keep_applyRemoteOffer _ _ _ _) (keep_enqueue _ _))
+          · refine eff_trans_keep this (Keep.trans (keep_applyRemoteOffer pc1.trs.length d.secs [] pc1) ?_)
+            exact ⟨rfl, rfl, rfl, rfl, rfl⟩
         · exact eff_trans_keep this ⟨rfl, rfl, rfl, rfl, rfl⟩
+
+theorem eff_rollback (pc : PC) (isLocal : Bool) : Eff pc (rollback pc isLocal).1 := by
+  unfold rollback
+  split
+  · exact .ofKeep (Keep.refl _)
+  · split
+    · exact .ofKeep (Keep.refl _)
+    · rename_i pc1 h
+      rcases applyChecked_cases h with ⟨h1, h2, h3, _⟩ | ⟨_, h2, h3, h4, _⟩
+      · exact .keep h1 h2 h3
+      · exact .rolledBack h2 (by rw [h3]; rfl) h4
 
 /-- Close keeps the log (it changes `sig` and `closed`) -/
 theorem eff_close (pc : PC) : Eff pc (close pc).1 := by
@@ -224,6 +266,7 @@ theorem eff_api (pc : PC) (op : Api) : Eff pc (api pc op).1 := by
   | createAnswer => exact .ofKeep (keep_createAnswer pc)
   | setLocal d prov => exact eff_setLocal pc d prov
   | setRemote d prov => exact eff_setRemote pc d prov
+  | rollback isLocal => exact eff_rollback pc isLocal
   | close => exact eff_close pc
 
 theorem keep_runTail (pc : PC) (t : Tail) : Keep pc (runTail pc t).1 := by
@@ -233,7 +276,9 @@ theorem keep_runTail (pc : PC) (t : Tail) : Keep pc (runTail pc t).1 := by
     split <;> exact ⟨rfl, rfl, rfl, rfl, rfl⟩
   | remoteAnswer ans isReneg =>
     simp only [runTail]
-    split <;> exact ⟨rfl, rfl, rfl, rfl, rfl⟩
+    split
+    · exact ⟨rfl, rfl, rfl, rfl, rfl⟩
+    · split <;> exact ⟨rfl, rfl, rfl, rfl, rfl⟩
 
 /-- negotiationNeededOp: the only place where the handler runs, and only behind its guards -/
 theorem eff_nnOp (pc : PC) : Eff pc (nnOp pc) := by
@@ -294,6 +339,7 @@ theorem eff_work {pc pc' : PC} {env : Option Bool} (h : work pc env = some pc') 
       cases this with
       | keep x y z => exact .keep x y z
       | stable x y z => exact .stable x y z
+      | rolledBack x y z => exact .rolledBack x y z
       | withdrawn w x y z => exact .withdrawn w x y z
       | fire w x y z => exact .fire w x y z
     · split at h
@@ -687,6 +733,18 @@ theorem K_setRemote {pc : PC} (hK : K pc) (d : Desc) (prov : Bool) : K (setRemot
       · have h1 := K_of_setDescription h
         exact K_of_either h1
 
+/-- a rollback into stable queues the check like a completed exchange does -/
+theorem K_rollback {pc : PC} (hK : K pc) (isLocal : Bool) : K (rollback pc isLocal).1 := by
+  unfold rollback
+  split
+  · exact hK
+  · split
+    · exact hK
+    · rename_i pc1 h
+      rcases applyChecked_cases h with ⟨_, _, _, _, _, _, h7⟩ | ⟨_, _, _, _, _, h6, _⟩
+      · exact K_of_not_stable h7
+      · exact K_of_pending h6
+
 theorem closed_afterST (pc : PC) (rtp : Option Bool) : (afterST pc rtp).closed = pc.closed :=
   (keep_afterST pc rtp).closed
 
@@ -710,15 +768,16 @@ theorem K_api {pc : PC} (hK : K pc) (op : Api) : K (api pc op).1 := by
   | createAnswer => exact K_createAnswer hK
   | setLocal d prov => exact K_setLocal hK d prov
   | setRemote d prov => exact K_setRemote hK d prov
+  | rollback isLocal => exact K_rollback hK isLocal
   | close => exact K_close pc hK
 
 /-- the tail of SetLocal/SetRemoteDescription(answer) changes current directions and `sent` marks and
     enqueues: nothing checkNegotiationNeeded reads (so an early negotiationNeededOp saw the same values) -/
 theorem K_runTail {pc : PC} (hK : K pc) (t : Tail) : K (runTail pc t).1 := by
-  have key : ∀ (trs' : List Tr) (q : List QOp) (g : Bool),
+  have key : ∀ (trs' : List Tr) (q : List QOp) (g : Bool) (sf : Option Bool),
       trs'.map Tr.view = pc.trs.map Tr.view → (QOp.nn ∈ pc.queue → QOp.nn ∈ q) →
-      K { pc with tail := none, trs := trs', queue := q, gathered := g } := by
-    intro trs' q g hv hq
+      K { pc with tail := none, trs := trs', queue := q, gathered := g, stFromOffer := sf } := by
+    intro trs' q g sf hv hq
     refine K_of_same hK rfl rfl rfl id hq id ?_ ?_
     · intro hp
       simp only [PC.pristine, Bool.and_eq_true, List.isEmpty_iff] at hp ⊢
@@ -726,23 +785,27 @@ theorem K_runTail {pc : PC} (hK : K pc) (t : Tail) : K (runTail pc t).1 := by
       rw [this] at hv
       exact ⟨⟨by simpa using hv, hp.1.2⟩, hp.2⟩
     · intro hc
-      exact check_true_of_congr (pc' := { pc with tail := none, trs := trs', queue := q, gathered := g })
+      exact check_true_of_congr
+        (pc' := { pc with tail := none, trs := trs', queue := q, gathered := g, stFromOffer := sf })
         rfl rfl rfl hv hc
   cases t with
   | localAnswer ans remote =>
     simp only [runTail]
     split
-    · exact key _ pc.queue pc.gathered (setCurDirs_view _ _ _ _) id
+    · exact key _ pc.queue pc.gathered pc.stFromOffer (setCurDirs_view _ _ _ _) id
     · rename_i trs hs
-      exact key _ _ true ((startSenders_view hs).trans (setCurDirs_view _ _ _ _))
+      exact key _ _ true pc.stFromOffer ((startSenders_view hs).trans (setCurDirs_view _ _ _ _))
         (fun h => List.mem_append_left _ h)
   | remoteAnswer ans isReneg =>
     simp only [runTail]
     split
-    · exact key _ pc.queue pc.gathered (setCurDirs_view _ _ _ _) id
+    · exact key _ pc.queue pc.gathered pc.stFromOffer (setCurDirs_view _ _ _ _) id
     · rename_i trs hs
-      exact key _ _ pc.gathered ((startSenders_view hs).trans (setCurDirs_view _ _ _ _))
-        (fun h => List.mem_append_left _ h)
+      split
+      · exact key _ _ pc.gathered pc.stFromOffer ((startSenders_view hs).trans (setCurDirs_view _ _ _ _))
+          (fun h => List.mem_append_left _ h)
+      · exact key _ _ pc.gathered _ ((startSenders_view hs).trans (setCurDirs_view _ _ _ _))
+          (fun h => List.mem_append_left _ h)
 
 theorem check_of_media_eq {pc pc' : PC} (h1 : pc'.curLocal = pc.curLocal) (h2 : pc'.curRemote = pc.curRemote)
     (h3 : pc'.dcs = pc.dcs) (h4 : pc'.trs = pc.trs) : check pc' = check pc :=
